@@ -34,6 +34,8 @@ PROP = {
         "the source address of a datagram is otherwise not part of the rule (all generated datagrams come from configured servers)",
         "(b) the timeout is the documented 5 checks 1 s apart: asserted window = later than 4 s after request() and in the first loop pass at or after 5 s; the virtual clock advances in steps of at most 1 s, each followed by idle passes",
         "(b) request ids are not reused within a history (at most 24 lookups); cancel() of the lookup whose callback is running, setDnsIPAddresses() with lookups outstanding and destroying the DnsRequest inside a callback are not generated",
+        "(b) a datagram longer than UdpSocket's 4096-byte receive buffer reaches DnsRequest as its first 4096 bytes (plain recvfrom()); if those end inside a question or record the reply is cut off = malformed and must be ignored "
+        "(the lookup stays outstanding and the next acceptable reply completes it); a complete reply followed by padding may be taken (with its own data) or dropped",
         "(b) loopback UDP keeps the order of datagrams sent to one socket; the harness waits (SO_MEMINFO on the client's socket) until each datagram has arrived before it runs the loop",
     ],
 }
@@ -51,7 +53,7 @@ META = {
                   "it returns (no crash, no stack exhaustion, no sanitizer report, < 1 s CPU), calls back at most once and only for a datagram that carries the lookup's id with QR set, "
                   "the status agrees with the RCODE, every reported address/ttl and cname/ttl is located in that datagram by the reference reader, and RFC-conformant plain replies are "
                   "reported exactly. (b) Histories of up to 24 lookups against 1-3 loopback servers (requests, also from inside callbacks; cancels, also from inside callbacks, of "
-                  "outstanding / completed / never issued ids; replies valid / NXDOMAIN / SERVFAIL / FORMERR / REFUSED / NOTIMP / QR clear / unknown id from any server in any order; "
+                  "outstanding / completed / never issued ids; replies valid / NXDOMAIN / SERVFAIL / FORMERR / REFUSED / NOTIMP / QR clear / unknown id / over-long (4090-9000 bytes, DNS content running past the 4096-byte receive buffer) from any server in any order; "
                   "duplicated datagrams; datagrams sent while no lookup is outstanding; clock advances around the 4-5 s window): every callback runs exactly once, during the delivery of "
                   "the first acceptable datagram with that datagram's data, or as kTimeout inside the window, never after cancel; no other datagram causes a callback; cancel() and "
                   "isRunning() agree with the model after every step. Exploration only: no counter-example among N generated cases.",
